@@ -1,30 +1,41 @@
 """C16 Resolver choice policy: highest version for upgrades, reuse for minimal installs, determinism.
 
 Generated (vf.gen.resolverworld):
-  * policy worlds - profile 'mono': every dependency is unversioned or `>=` (optionally slotted), no blockers, so the
-    highest version of a slot satisfies whatever a lower one satisfies and choices cannot conflict; dependency cycles
-    only through PDEPEND (other cycles are accepted by the resolver only under context-dependent conditions, and a
-    build-time dependency on the package's own name is only taken from the installed db); ONE target;
-    upgrade_resolver / min_install_resolver as pmerge builds them (verify_vdb on/off, lists or RepositoryGroup; no
-    empty-tree / force-replace, which deliberately ignore or re-merge installed packages).
+  * policy worlds - profiles 'mono' (1/3) and 'mono-cyclic' (2/3): every dependency is unversioned or `>=` (optionally
+    slotted), no blockers, so the highest version of a slot satisfies whatever a lower one satisfies and choices
+    cannot conflict.  Names are ranked; every DEPEND/BDEPEND/RDEPEND/IDEPEND clause has an alternative on a
+    higher-ranked name, PDEPEND may point anywhere, and any-of groups get extra alternatives pointing back (own or
+    lower-ranked name) - so the worlds contain dependency cycles, build-time ones included, that a resolver can always
+    get out of ('mono-cyclic': more build-time clauses, more back-pointing alternatives, mostly one plain atom per
+    name).  1-3 targets on distinct names in generated (unsorted) order, as `pmerge
+    --disable-resolver-target-sorting` passes them; upgrade_resolver / min_install_resolver as pmerge builds them
+    (verify_vdb on/off, lists or RepositoryGroup; no empty-tree / force-replace, which deliberately ignore or re-merge
+    installed packages).
   * determinism worlds - profile 'full' (everything C15 generates, all resolver switches, 1-3 targets).
 
 Oracle:
-  * reference resolvability R (least fixpoint, shares no code with the resolver): a package is resolvable iff every
-    clause of every dependency class has an alternative matched by a resolvable package (installed packages count as
-    resolvable outright when verify_vdb is off: pmerge wipes their dependencies then).  Least fixpoint = only
-    well-founded (cycle-free) justifications, which is what every cycle policy of the resolver accepts.
-  * upgrade (P1): if some instance of the highest version matching the target is resolvable, resolution must succeed
-    and the final state must hold that version; if the installed instance of that version is resolvable it must be
+  * reference resolvability R (least fixpoint, shares no code with the resolver): a package is *provably* resolvable
+    iff every PDEPEND clause has an alternative matched by a provably resolvable package and every other clause has
+    such an alternative on a HIGHER-ranked name (installed packages count outright when verify_vdb is off: pmerge
+    wipes their dependencies then).  Alternatives that point back are ignored: whether one of them works depends on
+    the resolver's context-dependent cycle rules, but when it fails the forward alternative is still there.
+  * which targets are judged: target i is judged iff its name is not reachable (any class, any alternative, any
+    candidate) from the candidates of targets 1..i-1 - otherwise it may legitimately be "already satisfied" by a lower
+    version when its turn comes.  The first target is always judged.
+  * upgrade (P1), per judged target: if an instance of the highest version matching the target is provably resolvable,
+    the final state must hold that version; if the installed instance of that version is provably resolvable it must be
     the one used (no merge of the same cpv).
-  * min-install (P2): if a resolvable installed package X matches the target and no dependency in the universe asks
-    for a version of that name+slot that X does not satisfy, then resolution must succeed, X must still be there,
+  * min-install (P2), per judged target: if a provably resolvable installed package X matches the target and no
+    dependency in the universe asks for a version of that name+slot that X does not satisfy, X must still be there,
     and - when no dependency names another slot of it - nothing else matching the target may be merged.
+  * if every target has a provably resolvable candidate, resolution must succeed.
   * determinism (P3): resolving the same world again with fresh objects, and again with every repository dict built in
     a different insertion order, must give the identical outcome and operation list.
+Class counters: multi_target, judged-later-target, cycle:installed-only-retry (a cycle made the resolver retry an atom
+against the installed db only), depend_cycle_survivable (such a retry happened and resolution still succeeded).
 
-Dropped w.r.t. DESIGN.md: brute-force search over version choices (the mono profile makes the fixpoint exact);
-multi-target policy checks (a later target may already be satisfied by what an earlier one pulled in).
+Dropped w.r.t. DESIGN.md: brute-force search over version choices (on these profiles the fixpoint is a sound
+sufficient condition); targets whose name an earlier target can pull in are not judged.
 """
 
 import random
@@ -43,37 +54,53 @@ TECHNIQUE = "random conflict-free universes; reference resolvability fixpoint pr
 DESIGN_REF = "DESIGN.md §3 C16"
 LEVEL_TEXT = (
     "Generated-input search: universes in which greedy choices cannot conflict are resolved with the upgrade and "
-    "minimal-install resolvers and the package chosen for the single target is compared with the prediction of an "
+    "minimal-install resolvers (1-3 targets) and the package chosen for every judgeable target is compared with the prediction of an "
     "independent resolvability fixpoint; arbitrary C15 universes are resolved three times (same inputs, fresh objects, "
     "shuffled repository insertion order) and the plans compared."
 )
 LEVEL_NOTE = (
     "Trusted: resolverworld's atom matcher, the least-fixpoint resolvability model, FakePkg/SimpleTree. Policy checks "
-    "cover single-target requests on monotone universes only. No proof of absence."
+    "cover monotone universes and only targets whose name no earlier target can pull in. No proof of absence."
 )
 RULE = (
-    "policy: mono worlds (2-5 names, <=12 packages, any-of groups, all five classes, `>=`/slot deps, cycles through PDEPEND only) + one target; non-trivial = "
-    ">=2 distinct candidate versions match the target, >=1 package of that name is installed, the precondition of P1/P2 "
-    "holds and the resolver succeeded; determinism: full worlds, non-trivial = success with >=2 plan operations; "
+    "policy: mono / mono-cyclic worlds (2-5 names, <=12 packages, any-of groups, all five classes, `>=`/slot deps, "
+    "survivable cycles through PDEPEND and back-pointing any-of alternatives) + 1-3 unsorted targets; non-trivial = for "
+    "some judged target >=2 distinct candidate versions match, >=1 package of that name is installed, the precondition "
+    "of P1/P2 holds and the resolver succeeded; determinism: full worlds, non-trivial = success with >=2 plan operations; "
     "distinct = JSON of the world"
 )
 ASSUMPTIONS = [
-    "on the mono profile a least-fixpoint-resolvable package is resolvable by the greedy resolver (no blockers, no upper bounds, so choices cannot conflict)",
+    "on the mono profiles a package that is least-fixpoint resolvable through forward (rank-increasing) and PDEPEND alternatives alone is resolvable by the greedy resolver whatever it does with back-pointing alternatives (no blockers, no upper bounds, so choices cannot conflict)",
     "FakePkg/SimpleTree behave like real repositories as far as the resolver is concerned",
 ]
 BUDGET = {"quick": 50, "thorough": 900}
 
 
-def resolvable_set(world, pk):
-    """ids of resolvable packages (least fixpoint)"""
+def _rank(key):
+    return RW.NAMES.index(key) if key in RW.NAMES else -1
+
+
+def resolvable_set(world, pk, forward_only=True):
+    """ids of resolvable packages (least fixpoint).  forward_only: a DEPEND/BDEPEND/RDEPEND/IDEPEND clause only counts
+    as satisfiable through an alternative on a higher-ranked name (rank = position in resolverworld.NAMES); PDEPEND
+    clauses through any alternative.  That is the part of resolvability that cannot depend on how the resolver
+    treats a dependency cycle: whatever happens to an alternative that points back, the forward one remains."""
     verify = bool(world["resolver"].get("verify_vdb", True))
     res = set()
     if not verify:
         res |= {i for i, p in pk.items() if p.livefs}
     pend = [p for p in pk.values() if p.id not in res]
-    clauses = {
-        p.id: [[RW.ratom(a) for a in cl] for cls in RW.CLASSES for cl in p.clauses(cls)] for p in pend
-    }
+    clauses = {}
+    for p in pend:
+        cls_ = []
+        for cls in RW.CLASSES:
+            for cl in p.clauses(cls):
+                alts = [RW.ratom(a) for a in cl]
+                alts = [a for a in alts if not a.blocks]
+                if forward_only and cls != "PDEPEND":
+                    alts = [a for a in alts if _rank(a.key) > _rank(p.key)]
+                cls_.append(alts)
+        clauses[p.id] = cls_
     changed = True
     while changed:
         changed = False
@@ -82,13 +109,29 @@ def resolvable_set(world, pk):
                 continue
             ok = True
             for alts in clauses[p.id]:
-                if not any((not a.blocks) and any(q.id in res and a.match(q) for q in pk.values()) for a in alts):
+                if not any(any(q.id in res and a.match(q) for q in pk.values()) for a in alts):
                     ok = False
                     break
             if ok:
                 res.add(p.id)
                 changed = True
     return res
+
+
+def reach_keys(pk, start):
+    """names of every package reachable from the packages `start` through any alternative of any class"""
+    seen, todo = set(), list(start)
+    while todo:
+        p = todo.pop()
+        if p.id in seen:
+            continue
+        seen.add(p.id)
+        for cls in RW.CLASSES:
+            for cl in p.clauses(cls):
+                for a in map(RW.ratom, cl):
+                    if not a.blocks:
+                        todo.extend(q for q in pk.values() if q.id not in seen and a.match(q))
+    return {pk[i].key for i in seen}
 
 
 def _vkey(p):
@@ -108,63 +151,90 @@ def _same_ver(p, q):
 
 
 def gen_policy_world(seed):
-    w = RW.gen_world(seed, "mono")
+    w = RW.gen_world(seed, "mono-cyclic" if seed % 3 else "mono")
     rnd = random.Random(seed ^ 0x5A5A5A5A)
     pk = RW.rpkgs(w)
     keys = sorted({p.key for p in pk.values()})
     inst_keys = sorted({p.key for p in pk.values() if p.livefs})
-    key = rnd.choice(inst_keys) if inst_keys and rnd.randrange(4) else rnd.choice(keys)
-    k = rnd.randrange(10)
-    if k <= 5:
-        t = key
-    elif k <= 7:
-        t = f">={key}-{rnd.choice(RW.VERS[:3])}"
-    else:
-        t = f"{key}:{rnd.choice(('0', '0', '1'))}"
-    w["targets"] = [t]
+    nt = min(len(keys), RW._w(rnd, [(1, 2), (2, 4), (3, 3)]) if seed % 3 else RW._w(rnd, [(1, 5), (2, 4), (3, 2)]))
+    first = rnd.choice(inst_keys) if inst_keys and rnd.randrange(4) else rnd.choice(keys)
+    rest = [k for k in keys if k != first]
+    rnd.shuffle(rest)
+    targets = []
+    for key in [first] + rest[: nt - 1]:
+        k = rnd.randrange(10)
+        if k <= 5:
+            t = key
+        elif k <= 7:
+            t = f">={key}-{rnd.choice(RW.VERS[:3])}"
+        else:
+            t = f"{key}:{rnd.choice(('0', '0', '1'))}"
+        targets.append(t)
+    rnd.shuffle(targets)  # generated order, NOT sorted (pmerge --disable-resolver-target-sorting)
+    w["targets"] = targets
     w["resolver"]["empty_tree"] = False
     w["resolver"]["force_replace"] = False
     w["resolver"]["kind"] = "upgrade" if rnd.randrange(2) else "min_install"
     return w
 
 
+def _expectation(world, pk, t, kind, safe):
+    """-> (expect, info, classes): expect 'P1'/'P2' when the precondition of the clause to check holds for target t"""
+    cands = [p for p in pk.values() if t.match(p)]
+    info = {"cands": cands}
+    if not cands:
+        return None, info, ["precondition:no-candidate"]
+    top = _vmax(cands)
+    top_inst = [p for p in cands if _same_ver(p, top)]
+    info.update(top=top, top_inst=top_inst)
+    if kind == "upgrade":
+        if any(p.id in safe for p in top_inst):
+            return "P1", info, []
+        return None, info, ["precondition:highest-not-provably-resolvable"]
+    inst = [p for p in cands if p.livefs and p.id in safe]
+    if not inst:
+        return None, info, ["precondition:no-resolvable-installed-match"]
+    X = _vmax(inst)  # what prefer_reuse_strategy tries first: the highest installed match
+    demands = [
+        a
+        for p in pk.values()
+        for cls in RW.CLASSES
+        for cl in p.clauses(cls)
+        for a in map(RW.ratom, cl)
+        if a.key == X.key and not a.blocks
+    ]
+    info.update(X=X, demands=demands)
+    if all(a.match(X) for a in demands if a.slot is None or a.slot == X.slot):
+        return "P2", info, []
+    return None, info, ["precondition:installed-must-be-upgraded"]
+
+
 def eval_policy(ctx, world, record=True):
     pk = RW.rpkgs(world)
-    t = RW.ratom(world["targets"][0])
     kind = world["resolver"]["kind"]
-    cands = [p for p in pk.values() if t.match(p)]
-    res_ids = resolvable_set(world, pk)
+    targets = [RW.ratom(t) for t in world["targets"]]
+    safe = resolvable_set(world, pk, forward_only=True)
     classes = ["policy:" + kind, "verify_vdb:" + ("yes" if world["resolver"].get("verify_vdb") else "no")]
-    expect = None  # (what, detail) when the precondition of the checked clause holds
-    if cands:
-        top = _vmax(cands)
-        top_inst = [p for p in cands if _same_ver(p, top)]
-        if kind == "upgrade":
-            if any(p.id in res_ids for p in top_inst):
-                expect = "P1"
-            else:
-                classes.append("precondition:highest-unresolvable")
+    if len(targets) > 1:
+        classes.append("multi_target")
+    # which targets can be judged: nothing an earlier target may pull in has the target's name (otherwise the
+    # target can legitimately be 'already satisfied' by a lower version when its turn comes)
+    plan_ = []
+    reached = set()
+    for idx, t in enumerate(targets):
+        cands = [p for p in pk.values() if t.match(p)]
+        if t.key in reached:
+            plan_.append((t, None, {"cands": cands}))
+            classes.append("target:not-judged(name reachable from an earlier target)")
         else:
-            inst = [p for p in cands if p.livefs and p.id in res_ids]
-            if inst:
-                # what prefer_reuse_strategy tries first: the highest installed match
-                X = _vmax(inst)
-                demands = [
-                    a
-                    for p in pk.values()
-                    for cls in RW.CLASSES
-                    for cl in p.clauses(cls)
-                    for a in map(RW.ratom, cl)
-                    if a.key == X.key and not a.blocks
-                ]
-                if all(a.match(X) for a in demands if a.slot is None or a.slot == X.slot):
-                    expect = "P2"
-                else:
-                    classes.append("precondition:installed-must-be-upgraded")
-            else:
-                classes.append("precondition:no-resolvable-installed-match")
-    else:
-        classes.append("precondition:no-candidate")
+            expect, info, cl = _expectation(world, pk, t, kind, safe)
+            classes.extend(cl)
+            plan_.append((t, expect, info))
+            if expect and idx:
+                classes.append("judged-later-target")
+        reached |= reach_keys(pk, cands) | {t.key}
+    # failure is judged when every target has a provably resolvable candidate
+    must_succeed = all(any(p.id in safe for p in info["cands"]) for _, _, info in plan_)
 
     out = None
     try:
@@ -177,55 +247,67 @@ def eval_policy(ctx, world, record=True):
         out = None
 
     nontrivial = False
-    if out is not None and expect is not None:
-        classes.append("checked:" + expect)
+    if out is not None:
+        classes.append("outcome:" + ("success" if out["ok"] else "failure"))
+        if out["vdb_forced"]:
+            classes.append("cycle:installed-only-retry")
+            if out["ok"]:
+                classes.append("depend_cycle_survivable")
         if not out["ok"]:
-            ctx.violation(
-                f"{kind}:resolution-failed", world,
-                f"target {t.text}: reference model finds it resolvable, resolver failed on {out['failed']}",
-            )
+            if must_succeed:
+                classes.append("checked:must-succeed")
+                ctx.violation(
+                    f"{kind}:resolution-failed", world,
+                    f"targets {world['targets']}: every target has a resolvable candidate in the reference model, resolver failed on {out['failed']}",
+                )
         else:
             S, merged = RW.final_state(pk, out["ops"])
             Sp = [pk[i] for i in S]
-            nvers = len({(p.ver, p.rev or "0") for p in cands})
-            nontrivial = nvers >= 2 and any(p.livefs and p.key == t.key for p in pk.values())
-            if expect == "P1":
-                got = [p for p in Sp if t.match(p)]
-                if not any(_same_ver(p, top) for p in got):
-                    ctx.violation(
-                        "upgrade:not-highest", world,
-                        f"target {t.text}: highest resolvable version is {top.cpv}, final state has {[p.id for p in got]}; plan={out['ops']}",
-                    )
-                else:
-                    inst_top = [p for p in top_inst if p.livefs and p.id in res_ids]
-                    if inst_top:
-                        classes.append("P1:installed-equal-version")
-                        if not any(p.id in S for p in inst_top):
-                            ctx.violation(
-                                "upgrade:installed-not-preferred", world,
-                                f"target {t.text}: installed {inst_top[0].id} has the highest version and is resolvable, but plan={out['ops']}",
-                            )
-                    if any(not _same_ver(p, top) for p in cands):
-                        classes.append("P1:lower-candidates-exist")
-            else:
-                if X.id not in S:
-                    ctx.violation(
-                        "min_install:installed-not-kept", world,
-                        f"target {t.text}: installed {X.id} satisfies it, but plan={out['ops']}",
-                    )
-                elif not any(a.slot is not None and a.slot != X.slot for a in demands):
-                    extra = [i for i in merged if t.match(pk[i])]
-                    if extra:
+            for t, expect, info in plan_:
+                if expect is None:
+                    continue
+                classes.append("checked:" + expect)
+                cands = info["cands"]
+                nvers = len({(p.ver, p.rev or "0") for p in cands})
+                if nvers >= 2 and any(p.livefs and p.key == t.key for p in pk.values()):
+                    nontrivial = True
+                if expect == "P1":
+                    top, top_inst = info["top"], info["top_inst"]
+                    got = [p for p in Sp if t.match(p)]
+                    if not any(_same_ver(p, top) for p in got):
                         ctx.violation(
-                            "min_install:extra-merge", world,
-                            f"target {t.text}: installed {X.id} satisfies it, nothing asks for another slot, yet {extra} merged; plan={out['ops']}",
+                            "upgrade:not-highest", world,
+                            f"target {t.text}: highest resolvable version is {top.cpv}, final state has {[p.id for p in got]}; plan={out['ops']}",
                         )
-                if any(not p.livefs for p in cands):
-                    classes.append("P2:source-candidates-exist")
-    elif out is not None:
-        classes.append("outcome:" + ("success" if out["ok"] else "failure"))
+                    else:
+                        inst_top = [p for p in top_inst if p.livefs and p.id in safe]
+                        if inst_top:
+                            classes.append("P1:installed-equal-version")
+                            if not any(p.id in S for p in inst_top):
+                                ctx.violation(
+                                    "upgrade:installed-not-preferred", world,
+                                    f"target {t.text}: installed {inst_top[0].id} has the highest version and is resolvable, but plan={out['ops']}",
+                                )
+                        if any(not _same_ver(p, top) for p in cands):
+                            classes.append("P1:lower-candidates-exist")
+                else:
+                    X, demands = info["X"], info["demands"]
+                    if X.id not in S:
+                        ctx.violation(
+                            "min_install:installed-not-kept", world,
+                            f"target {t.text}: installed {X.id} satisfies it, but plan={out['ops']}",
+                        )
+                    elif not any(a.slot is not None and a.slot != X.slot for a in demands):
+                        extra = [i for i in merged if t.match(pk[i])]
+                        if extra:
+                            ctx.violation(
+                                "min_install:extra-merge", world,
+                                f"target {t.text}: installed {X.id} satisfies it, nothing asks for another slot, yet {extra} merged; plan={out['ops']}",
+                            )
+                    if any(not p.livefs for p in cands):
+                        classes.append("P2:source-candidates-exist")
     if record:
-        ctx.case(world, nontrivial=nontrivial, classes=classes, key=core.jdump(world))
+        ctx.case(world, nontrivial=nontrivial, classes=sorted(set(classes)), key=core.jdump(world))
 
 
 def eval_determinism(ctx, world, record=True):
@@ -256,7 +338,7 @@ def eval_determinism(ctx, world, record=True):
 
 def plan(tier, seed):
     if tier == "quick":
-        return [{"task": "policy", "examples": 250} for _ in range(11)] + [{"task": "determinism", "examples": 60} for _ in range(5)]
+        return [{"task": "policy", "examples": 300} for _ in range(11)] + [{"task": "determinism", "examples": 60} for _ in range(5)]
     return [{"task": "policy", "examples": 8000} for _ in range(20)] + [{"task": "determinism", "examples": 2500} for _ in range(12)]
 
 
@@ -274,7 +356,7 @@ def run_task(ctx, task, **kw):
 
 
 def replay(ctx, case):
-    if len(case["targets"]) == 1 and not case["resolver"].get("empty_tree") and not case["resolver"].get("force_replace") and _is_mono(case):
+    if case["targets"] and not case["resolver"].get("empty_tree") and not case["resolver"].get("force_replace") and _is_mono(case):
         eval_policy(ctx, case)
     eval_determinism(ctx, case, record=False)
 
